@@ -566,7 +566,54 @@ def correspondence(ctx):
         shutil.rmtree(work, ignore_errors=True)
 
 
+def check_dns_names(ctx, rng):
+    """the scanner's name lookup: a name that cannot be represented as a DNS name is skipped, never ends the scanner.
+    Real hostwatch._check_dns; gethostbyname is the real IDNA encoding step of CPython followed by a table lookup
+    (no network): it raises exactly what the real call raises before any packet would be sent."""
+    import socket as real_socket
+    import sshuttle.hostwatch as hostwatch
+
+    table = {"known.example": "10.1.2.3", "b\xfccher.example": "10.1.2.4"}
+
+    class SockProxy(object):
+        def __getattr__(self, k):
+            return getattr(real_socket, k)
+
+        @staticmethod
+        def gethostbyname(name):
+            if isinstance(name, str):
+                name.encode("idna")          # UnicodeError for empty / over-long labels and unencodable text
+            ip = table.get(name)
+            if ip is None:
+                raise real_socket.gaierror(-2, "Name or service not known")
+            return ip
+
+    names = ["known.example", "unknown.example", "a" * 63 + ".example", "a" * 64 + ".example", "a..b", ".", "..", "",
+             "x." + "b" * 64, "\ufffd.example", "caf\xe9.example", "b\xfccher.example", "\udcff.example", "a" * 300,
+             "xn--.example", "-.-", " lead.example", "tab\t.example", "\u2603.example", "a.b." + "c" * 70 + ".d"]
+    names += ["".join(rng.choice("ab.-_\xe9\ufffd") for _ in range(rng.randint(1, 80))) for _ in range(60)]
+    old = (hostwatch.socket, hostwatch.found_host, hostwatch.check_host)
+    found = []
+    hostwatch.socket = SockProxy()
+    hostwatch.found_host = lambda n, ip: found.append((n, ip))
+    hostwatch.check_host = lambda ip: None
+    try:
+        for n in names:
+            ctx.case(("check_dns", n), nontrivial=True)
+            ctx.count("scanner_lookup_names")
+            try:
+                hostwatch._check_dns(n)
+            except BaseException as e:      # noqa
+                ctx.violation("the scanner's lookup of a name that cannot be represented ended the scanner (%s)" % type(e).__name__,
+                              {"stage": "check_dns", "name": repr(n)[:200]})
+    finally:
+        hostwatch.socket, hostwatch.found_host, hostwatch.check_host = old
+    if ("known.example", "10.1.2.3") not in found:
+        ctx.disagree("check_dns", "known.example", found[:3], "resolvable names are reported")
+
+
 def _correspondence(ctx, rng, quick, work):
+    check_dns_names(ctx, rng)
     sc = Scanner(work)
     seen_kinds = {}
 
